@@ -128,14 +128,15 @@ func s3V2(reqURL *url.URL, parsedBase *url.URL, result S3ListBucketResult) []str
 				outlinks = append(outlinks, nextURL.String())
 			}
 		}
-	} else {
-		// Otherwise, we have actual objects in <Contents>
-		for _, obj := range result.Contents {
-			if obj.Size > 0 {
-				fileURL := *parsedBase
-				fileURL.Path += "/" + obj.Key
-				outlinks = append(outlinks, fileURL.String())
-			}
+	}
+
+	// A page can list objects in <Contents> next to the common prefixes
+	// (keys that sit directly under the requested prefix), queue those too
+	for _, obj := range result.Contents {
+		if obj.Size > 0 {
+			fileURL := *parsedBase
+			fileURL.Path += "/" + obj.Key
+			outlinks = append(outlinks, fileURL.String())
 		}
 	}
 
